@@ -711,6 +711,17 @@ func checkLoops(ctx *Ctx, r *Report, fn *ssa.Function) {
 			if !isIf {
 				continue
 			}
+			// the test must be able to end the loop: one side leaves it. (`for sc.Scan() ||
+			// other` has the Scan test continue into a second test, which alone decides.)
+			leaves := false
+			for _, su := range lb.Succs {
+				if !(b.Dominates(su) && reachableFrom(su)[b]) {
+					leaves = true
+				}
+			}
+			if !leaves {
+				continue
+			}
 			c, _ := stripNot(iff.Cond)
 			switch x := c.(type) {
 			case *ssa.BinOp:
